@@ -333,6 +333,13 @@ public:
 
   bool trusted() { return (_flags & FLAG_TRUSTED) != 0; }
 
+#ifdef BLOC_VERIF
+  /* verification accessors: number of symbol slots, depth of the stacks */
+  size_t verifSymbolCount() const { return _storage_pool.size(); }
+  size_t verifControlDepth() const { return _controlstack.size(); }
+  size_t verifBackedSymbolCount() const { return _backed_symbols.size(); }
+#endif
+
 private:
   Context * _root;
   FunctorManager * _fctm = nullptr;
